@@ -89,6 +89,9 @@ func (n *NonInterf) isFlag(e ast.Expr) (bool, bool) { // (isFlagCond, negated)
 	switch x := ast.Unparen(e).(type) {
 	case *ast.Ident:
 		return n.Info.Uses[x] == n.Flag, false
+	case *ast.SelectorExpr:
+		// the flag kept in a field of the receiver (s.capacityFromMax)
+		return n.Info.Uses[x.Sel] == n.Flag, false
 	case *ast.UnaryExpr:
 		if x.Op == token.NOT {
 			if ok, neg := n.isFlag(x.X); ok {
